@@ -28,6 +28,20 @@ CHECKS = {
              "mutex poisoning, terminal ioctl (the isolation clause is a run-time fact).",
         technique="Coq proof over a hand model + exhaustive small-scope differential correspondence",
     ),
+    "C15": dict(
+        category="proof",
+        text="Coq theorems over the model of depfile.rs/scanner.rs: every formatting (spells_d: any spacing, backslash-newline "
+             "continuations, blank lines, optional final newline, colons in paths) of an abstract depfile parses to its entries "
+             "grouped by target, the discovered list is exactly the listed prerequisites (in order when targets are distinct), and "
+             "every byte string yields Ok or a formatted Err (never panic / out-of-bounds / non-termination) + exhaustive "
+             "differential check against the real parser (all strings <= 7/9 over {a,' ',':','\\','\n'}, <= 4/5 with CR, NUL, "
+             "UTF-8) and structured depfiles under random formattings. Pinned tree violated it (F13 lost prerequisites, F2 "
+             "panic in the error excerpt; both repaired by fix: commits).",
+        design_ref="DESIGN.md §6 C15",
+        note="Trusted: Coq kernel, extraction, hand model, sampling of the differential check. 'Missing depfile counts as empty' "
+             "and 'malformed content fails the step' are exercised through task.rs in the C09/C16 legs.",
+        technique="Coq proof (grammar round-trip + totality) over a hand model + exhaustive small-scope differential correspondence",
+    ),
 }
 
 PENDING_REASON = "check not built yet in this round (work in progress, see DESIGN.md §10); not claimed"
